@@ -255,7 +255,7 @@ func runC01(c *an.Ctx) {
 	c01JSONRequest(c)
 	// ---- R15: the recycled filtering context never carries the previous request's rewritten question
 	c.Floor("C01-R15", 5)
-	sharedPoolInitSweep(c, "C01-R15", "dnssvc/internal/mainmw.filteringContext", "filter/internal.Request", "filter/internal.Response")
+	sharedPoolInitSweep(c, "C01-R15", "dnssvc/internal/mainmw.filteringContext", "filter/internal.Request", "filter/internal.Response", "ecscache.cacheRequest")
 	c01Writers(c)
 	c01AndroidMetric(c)
 	c01InitialMW(c)
